@@ -285,7 +285,9 @@ class World20:
                     vals = [np.float64(v) if isinstance(v, float) else np.int64(v) for v in m['vals']]
                 else:
                     vals = list(m['vals'])
-                ref = {k: v for k, v in zip(keys, m['vals'])}
+                # the model holds the same kind of number objects as the kernel (numpy scalars and Python numbers
+                # fail differently in user callables, e.g. on division by zero)
+                ref = {k: v for k, v in zip(keys, vals)}
             how = m.get('ctor', 'fkv')
             if how == 'fkv':
                 mv = MultiVector.fromkeysvalues(self.alg, keys, vals)
@@ -439,8 +441,6 @@ class World20:
         vals = list(self.model[i].values())
         if m.get('cont') == 'nd':
             vals = np.array(vals, dtype=m.get('dtype', 'float64'))
-        elif m.get('npscalars'):
-            vals = [np.float64(v) if isinstance(v, float) else np.int64(v) if isinstance(v, int) else v for v in vals]
         return MultiVector.fromkeysvalues(self.alg, keys, vals)
 
     def flatten_decoded(self, x, out, fe):
@@ -586,7 +586,13 @@ class World20:
                 ci = self.cidx[k]
                 if ci < len(V):
                     # an integer ndarray can only hold the integer part in place (numpy assignment semantics)
-                    ref[k] = int(V[ci]) if intdt and V[ci] == V[ci] else V[ci]
+                    new = int(V[ci]) if intdt and V[ci] == V[ci] else V[ci]
+                    try:
+                        changed = bool(ref[k] != new)
+                    except Exception:
+                        changed = True
+                    if changed:
+                        ref[k] = new        # an equal coefficient keeps its object (and its number type)
 
     # ---- main loop ---------------------------------------------------------------------------------------
     def run(self):
